@@ -22,6 +22,12 @@ func main() {
 		err = cmdLocksMeasure()
 	case "locks-replay":
 		err = cmdLocksReplay(os.Args[2:])
+	case "shapes":
+		err = cmdShapes(os.Args[2:])
+	case "signbytes":
+		err = cmdSignBytes(os.Args[2:])
+	case "compkey":
+		err = cmdCompKey(os.Args[2:])
 	case "concurrent":
 		err = cmdConcurrent(os.Args[2:])
 	case "replicas":
